@@ -412,6 +412,15 @@ def patch_case(name, kind, prop, patch, expect=""):
 # helper extraction (FrameDecoderState::read_header shared by new/reset) done right: nothing may fire
 patch_case("refactor-read-header-helper", "benign", ["C07", "C09", "C10", "C11"], "selftest/patches/benign-read-header-helper.diff")
 
+# ---- C01: loop dispatch on the persistent RLE slots ---------------------------------------------
+mutant("c01-dispatch-forgets-of-rle", "C01", "C01.slots.loop-dispatch", SSD,
+       "    if scratch.ll_rle.is_some() || scratch.ml_rle.is_some() || scratch.of_rle.is_some() {", "    if scratch.ll_rle.is_some() || scratch.ml_rle.is_some() {")
+benign("c01-dispatch-none-first", "C01", SSD,
+       "    if scratch.ll_rle.is_some() || scratch.ml_rle.is_some() || scratch.of_rle.is_some() {\n        decode_sequences_with_rle(section, &mut br, scratch, target)\n    } else {\n        decode_sequences_without_rle(section, &mut br, scratch, target)\n    }",
+       "    if scratch.of_rle.is_none() && scratch.ll_rle.is_none() && scratch.ml_rle.is_none() {\n        decode_sequences_without_rle(section, &mut br, scratch, target)\n    } else {\n        decode_sequences_with_rle(section, &mut br, scratch, target)\n    }")
+
+# the frame header's little-endian fields read with from_le_bytes of fresh zeroed arrays (the correct twin of seed C09-c)
+patch_case("le-fields-from-le-bytes", "benign", ["C01", "C03", "C09", "C10", "C11", "C14"], "selftest/patches/benign-le-from-bytes.diff")
 
 # independently produced breaking changes (seeded/<id>/): the property's own check must report them
 def _seeds():
